@@ -19,6 +19,18 @@ kwvals = st.integers(0, 3)
 kw = st.dictionaries(st.sampled_from("abc"), kwvals, max_size=2)
 CONDS = [None, None, None, "a>1", "a==b", "b<2", "c!=0", "a>=0"]
 RETS = [None, None, None, False, True, {"a": 3}, {"b": 0, "c": 2}, {"d": 1}, "x", 0]
+# blocking (what shots with `block: true` and the block_event_player do): a handler returns a minimum priority, handlers
+# registered with a blocking facility and a lower priority are skipped for the rest of the dispatch
+MP_RETS = [{"_min_priority": {"all": 2}}, {"_min_priority": {"all": 0, "fa": 1}}, {"_min_priority": {"all": -1, "fb": 3}},
+           {"_min_priority": {"all": 0}}]
+FACILITIES = [None, None, "fa", "fa", "fb"]
+
+
+def _blocked(mp, facility, prio):
+    """EventManager's documented blocking rule, restated."""
+    if mp is None or not facility:
+        return False
+    return mp["all"] > prio or (facility in mp and mp[facility] > prio)
 
 
 def _cond_eval(cond, kwargs):
@@ -70,8 +82,10 @@ def spec(nspecs, queue=False):
         "kwargs": kw,
         "cond": st.sampled_from(CONDS),
         "script": actions(2, nspecs, queue),
-        "ret": st.sampled_from(RETS),
+        "ret": st.sampled_from(RETS if queue else RETS + MP_RETS + MP_RETS),
     }
+    if not queue:
+        d["facility"] = st.sampled_from(FACILITIES)
     if queue:
         # wait behaviour for queue events: None (sync) | ["delay", ms] (0 = wait+clear inside the handler)
         # | ["event", ev] (clear when that event is next dispatched) | ["async", ms] (add_async_handler)
@@ -390,8 +404,8 @@ class Interp:
             self._unreg_spec(a[1])
         elif kind == "replace":
             sp = self.specs[a[1]]
-            if sp["cond"] or self._is_async(a[1]) or len(self.live) >= 30:
-                return      # replace_handler is documented for plain event names
+            if sp["cond"] or self._is_async(a[1]) or len(self.live) >= 30 or sp.get("facility"):
+                return      # replace_handler is documented for plain event names (and takes no blocking facility)
             self._unreg_spec(a[1])
             key = self.ev.replace_handler("e%d" % sp["event"], self.fns[a[1]], sp["prio"], **sp["kwargs"])
             inst = self.n_inst
@@ -436,7 +450,7 @@ class Interp:
         if self._is_async(i):
             key = self.ev.add_async_handler(self._evname(sp), self.afns[i], sp["prio"], **sp["kwargs"])
         else:
-            key = self.ev.add_handler(self._evname(sp), self.fns[i], sp["prio"], **sp["kwargs"])
+            key = self.ev.add_handler(self._evname(sp), self.fns[i], sp["prio"], sp.get("facility"), **sp["kwargs"])
         inst = self.n_inst
         self.n_inst += 1
         self.live.append({"inst": inst, "spec": i, "key": key})
@@ -695,9 +709,17 @@ class Oracle:
             if not isinstance(i["spec"], str) and not _cond_eval(self.specs[i["spec"]]["cond"], exp):
                 self.v("condition-false-but-invoked", "handler %r (condition %r) invoked with %r" % (
                     i["spec"], self.specs[i["spec"]]["cond"], exp))
+            if not isinstance(i["spec"], str) and _blocked(fold.get("_min_priority"), self.specs[i["spec"]].get("facility"),
+                                                           self.specs[i["spec"]]["prio"]):
+                self.v("blocked-but-invoked", "handler %r (facility %r, priority %d) of pid %d was invoked although an earlier "
+                       "handler had set _min_priority %r" % (i["spec"], self.specs[i["spec"]].get("facility"),
+                                                             self.specs[i["spec"]]["prio"], pid, fold.get("_min_priority")))
             i["fold_before"] = dict(fold)
             if p["type"] == "relay" and i["retdict"] is not None:
                 fold.update(i["retdict"])
+            elif p["type"] != "queue" and i["retdict"] is not None and "_min_priority" in i["retdict"] and not (
+                    p["type"] == "boolean" and i["ret"] == "False"):
+                fold["_min_priority"] = i["retdict"]["_min_priority"]
             if p["type"] == "boolean" and i["ret"] == "False":
                 stopped_at = n
                 if n != len(invs) - 1:
@@ -756,6 +778,12 @@ class Oracle:
                 continue
             if False in conds:
                 optional = True
+            blocked = set(_blocked(f.get("_min_priority"), sp.get("facility"), sp["prio"]) for f in states)
+            if blocked == {True}:
+                self.n_blocked = getattr(self, "n_blocked", 0) + 1
+                continue
+            if True in blocked:
+                optional = True
             if optional:
                 opt[s] = opt.get(s, 0) + 1
             else:
@@ -780,9 +808,11 @@ class Oracle:
             self.check_queue_sequence(p, invs)
 
     def _fold_states_for(self, invs, sp, p):
-        """Possible kwargs states a non-invoked handler of priority sp.prio could have seen (relay only)."""
-        if p["type"] != "relay":
+        """Possible kwargs states a non-invoked handler of priority sp.prio could have seen (relay results are folded in;
+        for other events only a returned _min_priority is)."""
+        if p["type"] == "queue":
             return [p["kwargs"]]
+        relay = p["type"] == "relay"
         states = []
         fold = dict(p["kwargs"])
         prs = [self.prio(i["spec"]) for i in invs]
@@ -793,7 +823,10 @@ class Oracle:
             if before_ok and after_ok:
                 states.append(dict(fold))
             if k < len(invs) and invs[k].get("retdict") is not None:
-                fold.update(invs[k]["retdict"])
+                if relay:
+                    fold.update(invs[k]["retdict"])
+                elif "_min_priority" in invs[k]["retdict"]:
+                    fold["_min_priority"] = invs[k]["retdict"]["_min_priority"]
         return states or [p["kwargs"]]
 
     def check_delivery_no_span(self, p):
